@@ -33,6 +33,9 @@ def cases_for(ctx, rng, maxl, quick):
                 # ("distinct", "same"): the same contracted shell on two different atoms - what every molecule with two equal atoms has
                 for br, tw in (("A=B", "exps"), ("A=B", "same"), ("distinct", "exps"), ("distinct", "same")):
                     cases.append(dc.make_case(rng, LA, LB, br, ecpL=rng.choice([1, 2]), twin=tw))
+    for (LA, LB) in ((1, 0), (0, 1), (1, 1), (2, 1)):
+        if max(LA, LB) <= maxl:
+            cases.append(dc.make_case(rng, LA, LB, "distinct", ecpL=2, across=True))
     return cases
 
 
